@@ -268,9 +268,10 @@ Theorem C06_lincode_combinations_complete :
 Proof. exact @lc_combinations_complete. Qed.
 Print Assumptions C06_lincode_combinations_complete.
 
-(* Sonic open_combinations -> check_combinations, end to end: for honest commitments, combinations (under distinct labels) of
-   polynomials without degree bounds, and claims that are the stated combinations of the true evaluations, the verifier accepts
-   whatever randomizers it draws and ends on the prover's tape position *)
+(* Sonic open_combinations -> check_combinations, end to end: for honest commitments, combinations under distinct labels and claims
+   that are the stated combinations of the true evaluations, the verifier accepts whatever randomizers it draws and ends on the
+   prover's tape position.  No condition on the combinations: whenever the prover succeeds (polynomials without degree bounds, or
+   one degree-bounded polynomial alone with coefficient one - the bound policy refuses everything else), the verifier accepts *)
 From PC Require Import Proofs.SonicLCComplete.
 Theorem C06_sonic_combinations_complete :
   forall (FO : FieldOps) (FL : FieldLaws FO) g gam h beta n m ck vk,
@@ -280,8 +281,6 @@ Theorem C06_sonic_combinations_complete :
       s_lm_honest vk h g gam beta m (s_label_map items) ->
       sl_agree (s_label_map items) (s_comm_map cs) ->
       NoDup (map fst lcs) ->
-      (forall l co lab lp st c, In l lcs -> In (co, TPoly lab) (snd l) ->
-          lookup N.compare lab (s_label_map items) = Some (lp, st, c) -> lp_bound lp = None) ->
       (forall pl pt labels lab terms, In (pl, (pt, labels)) (group_queries qs) -> In lab labels -> In (lab, terms) lcs ->
           lookup qkey_cmp (lab, pt) (evals_map ev) = Some (LC.lc_value (s_poly_of (s_label_map items) pt) terms)) ->
       (length (group_queries qs) <= length vtape)%nat ->
@@ -290,8 +289,9 @@ Theorem C06_sonic_combinations_complete :
 Proof. exact @sonic_lc_complete. Qed.
 Print Assumptions C06_sonic_combinations_complete.
 
-(* Marlin open_combinations -> check_combinations, end to end (same shape as the Sonic theorem; the second premise is the side
-   condition of the single-point theorem C01_marlin_complete, asked of every group) *)
+(* Marlin open_combinations -> check_combinations, end to end (same shape as the Sonic theorem, again with no condition on the
+   combinations themselves; the second premise is the side condition of the single-point theorem C01_marlin_complete, asked of
+   every group) *)
 From PC Require Import Proofs.MarlinBatchComplete Proofs.MarlinLCComplete.
 Theorem C06_marlin_combinations_complete :
   forall (FO : FieldOps) (FL : FieldLaws FO) ck vk g gam h b D hi n m,
@@ -303,8 +303,6 @@ Theorem C06_marlin_combinations_complete :
       lm_honest ck g gam b D m (MarlinLC.label_map items) ->
       ml_agree (MarlinLC.label_map items) (comm_map cs) ->
       NoDup (map fst lcs) ->
-      (forall l co lab lp st c, In l lcs -> In (co, TPoly lab) (snd l) ->
-          lookup N.compare lab (MarlinLC.label_map items) = Some (lp, st, c) -> lp_bound lp = None) ->
       (forall pl pt labels lab terms, In (pl, (pt, labels)) (group_queries qs) -> In lab labels -> In (lab, terms) lcs ->
           lookup qkey_cmp (lab, pt) (evals_map ev) = Some (LC.lc_value (poly_of (MarlinLC.label_map items) pt) terms)) ->
       (length (group_queries qs) <= length vtape)%nat ->
